@@ -209,8 +209,13 @@ def _trunc_div(a: int, b: int) -> int:
     return q if (a >= 0) == (b >= 0) else -q
 
 
-def eval_concrete(t, row: Dict[str, Any]) -> Any:
-    """Value of the term on a concrete row: int / str / bool, or None for null."""
+def eval_concrete(t, row: Dict[str, Any], hook=None) -> Any:
+    """Value of the term on a concrete row: int / str / bool, or None for null.
+    hook(t) -> (handled, value) lets the relational reference take over fields, paths and lambdas."""
+    if hook is not None:
+        handled, value = hook(t)
+        if handled:
+            return value
     k = t[0]
     if k == "field":
         return row[t[1]]
@@ -219,10 +224,10 @@ def eval_concrete(t, row: Dict[str, Any]) -> Any:
     if k == "null":
         return None
     if k == "neg":
-        x = eval_concrete(t[1], row)
+        x = eval_concrete(t[1], row, hook)
         return None if x is None else -int(x)
     if k == "arith":
-        a, b = eval_concrete(t[2], row), eval_concrete(t[3], row)
+        a, b = eval_concrete(t[2], row, hook), eval_concrete(t[3], row, hook)
         if a is None or b is None:
             return None
         a, b = int(a), int(b)
@@ -242,9 +247,9 @@ def eval_concrete(t, row: Dict[str, Any]) -> Any:
         op = t[1]
         if op in ("eq", "ne") and (t[2][0] == "null" or t[3][0] == "null"):
             other = t[2] if t[3][0] == "null" else t[3]
-            isnull = eval_concrete(other, row) is None
+            isnull = eval_concrete(other, row, hook) is None
             return isnull if op == "eq" else not isnull
-        a, b = eval_concrete(t[2], row), eval_concrete(t[3], row)
+        a, b = eval_concrete(t[2], row, hook), eval_concrete(t[3], row, hook)
         if a is None or b is None:
             return None
         if isinstance(a, str) != isinstance(b, str):
@@ -253,22 +258,22 @@ def eval_concrete(t, row: Dict[str, Any]) -> Any:
             a, b = int(a), int(b)
         return {"eq": a == b, "ne": a != b, "lt": a < b, "le": a <= b, "gt": a > b, "ge": a >= b}[op]
     if k == "in":
-        x = eval_concrete(t[1], row)
+        x = eval_concrete(t[1], row, hook)
         res: Optional[bool] = False
         for it in t[2]:
-            y = eval_concrete(it, row)
+            y = eval_concrete(it, row, hook)
             e = None if (x is None or y is None) else (x == y)
             res = _or3(res, e)
         return res
     if k == "and":
-        return _and3(_b(eval_concrete(t[1], row)), _b(eval_concrete(t[2], row)))
+        return _and3(_b(eval_concrete(t[1], row, hook)), _b(eval_concrete(t[2], row, hook)))
     if k == "or":
-        return _or3(_b(eval_concrete(t[1], row)), _b(eval_concrete(t[2], row)))
+        return _or3(_b(eval_concrete(t[1], row, hook)), _b(eval_concrete(t[2], row, hook)))
     if k == "not":
-        x = _b(eval_concrete(t[1], row))
+        x = _b(eval_concrete(t[1], row, hook))
         return None if x is None else (not x)
     if k == "call":
-        a = [eval_concrete(x, row) for x in t[2]]
+        a = [eval_concrete(x, row, hook) for x in t[2]]
         if any(x is None for x in a):
             return None
         n = t[1]
